@@ -266,14 +266,25 @@ func genGid(rng *rand.Rand) string {
 	for i := range b {
 		b[i] = cs[rng.Intn(len(cs))]
 	}
+	// what Params.ValidateBasic admits beyond plain ASCII: NUL bytes (trailing ones are indistinguishable from the padding),
+	// any other byte value, multi-byte UTF-8 (the limit is 32 BYTES)
+	switch rng.Intn(10) {
+	case 0:
+		if n > 1 {
+			b[n-1] = 0
+		}
+	case 1:
+		b[rng.Intn(n)] = 0
+	case 2:
+		b[rng.Intn(n)] = byte(128 + rng.Intn(128))
+	case 3:
+		return strings.Repeat("é", 1+rng.Intn(16))
+	}
 	return string(b)
 }
 
-func gidHex(g string) string {
-	b := make([]byte, 32)
-	copy(b, g)
-	return hex.EncodeToString(b)
-}
+// gidHex: the gravity-id TEXT as hex (the model packs it with the regenerated StrToByte32)
+func gidHex(g string) string { return hx.HexS(g) }
 
 // ---- the digest the contract recomputes (monitor) -----------------------------------------------------------------
 // Independent of the Lean model: go-ethereum's ABI packer over the argument list read from the Solidity source
@@ -699,12 +710,31 @@ func (h *hCtx) putBatch(c *chainT, b0 *types.OutgoingTxBatch) *objT {
 	if err := c.k.StoreBatch(h.ctx, &b); err != nil {
 		h.t.Fatalf("StoreBatch: %v", err)
 	}
+	return h.emitBatch(c, &b, b0, parts, cp)
+}
+
+func (h *hCtx) emitBatch(c *chainT, b, b0 *types.OutgoingTxBatch, parts []string, cp func(gid string) ([]byte, error)) *objT {
 	token, fr := b20(c, b.TokenContract), b20(c, b.FeeReceive)
-	sol, _ := solOfBatch(c, &b)
+	sol, _ := solOfBatch(c, b)
 	o := &objT{kind: "batch", nonce: b.BatchNonce, token: b.TokenContract, cp: cp, sol: sol, proto: b0}
 	h.emitStore(c, o, fmt.Sprintf("batch %s %s %s %d %d %s %s", c.name, b.TokenContract, hex.EncodeToString(token), b.BatchNonce, b.BatchTimeout,
 		hex.EncodeToString(fr), joinOrDash(parts)), allSafe(b.BatchNonce, b.BatchTimeout))
 	return o
+}
+
+// registerBatch: a batch the real builder has already stored joins the chain's objects (no second store)
+func (h *hCtx) registerBatch(c *chainT, b, b0 *types.OutgoingTxBatch) *objT {
+	var parts []string
+	for _, t := range b.Transactions {
+		parts = append(parts, fmt.Sprintf("%s:%s:%s", t.Token.Amount.String(), hex.EncodeToString(b20(c, t.DestAddress)), t.Fee.Amount.String()))
+	}
+	cp := func(gid string) ([]byte, error) {
+		if c.tron {
+			return trontypes.GetCheckpointConfirmBatch(b, gid)
+		}
+		return b.GetCheckpoint(gid)
+	}
+	return h.emitBatch(c, b, b0, parts, cp)
 }
 
 func (h *hCtx) storeBatch(c *chainT, token []byte, nonce uint64, safe bool) *objT {
@@ -2191,8 +2221,17 @@ func TestC12(t *testing.T) {
 				}
 			}
 		}
+		if rng.Intn(3) == 0 {
+			// a padding twin: tron / bsc gets the gravity id of eth followed by NUL bytes — another text, the same bytes32
+			h.paddingTwin(chains[0], chains[1+rng.Intn(2)])
+		}
 		for _, c := range chains {
 			h.populate(c, nObj)
+		}
+		h.gidStream()
+		for _, c := range chains {
+			h.timeoutStream(c)
+			h.buildStream(c)
 		}
 		h.populateCluster(chains[0], chains[1])
 		if rng.Intn(2) == 0 {
